@@ -937,7 +937,7 @@ func RunThreadShard(t *testing.T, env *ShardEnv) *ShardReport {
 func init() {
 	extraEngines["threads"] = RunThreadShard
 	extraReplayers["threads"] = RunThreadScenario
-	propTable["C11"] = PropInfo{Engine: "threads", Level: "exploration", QuickS: 20, ThorS: 480,
+	propTable["C11"] = PropInfo{Engine: "threads", Level: "exploration", QuickS: 24, ThorS: 600,
 		Rule: "one evaluation = one seeded scenario: 2-4 client goroutines, each owning trees loaded from (or cloned from a tree loaded from) two common persisted versions, run 6-40 ops (insert/delete/get/iter/seek/persist/clone/diff) under the baton scheduler, which picks the running client at every Persist/NodeCache call and op boundary; oracles: race-detector reports with mast frames (binary built -race; hand-off by raw pipe syscalls is invisible to the detector), fingerprints of every pre-loaded shared node before/after, and equality of each client's API-visible trace with the trace of the same ops run alone; both bindings (lock-free frozen cache/store with private overlays; live ARC cache + locked store); non-trivial = the concurrent run completed and was judged; distinct = hash of (config, ops, schedule tape)",
 		Assumptions: []string{"Go race detector (happens-before analysis of the executed accesses; its report for a given serialized execution is repeatable — checked by the determinism self-test)", "raw SYS_READ/SYS_WRITE pipe hand-off is not treated as synchronisation by the detector (spiked, see DESIGN.md 2.5)", "flush's own worker goroutines are not scheduled by this engine (C03's subject)"},
 		Components: map[string][]string{
